@@ -31,6 +31,13 @@ func vh_C11_step() {
 	vxAssert(tr != nil, "the transaction is registered")
 	attempt := int32(vxChoose(9))
 	tr.attempt = attempt // arbitrary number of retransmissions already done
+	if vxChoose(2) == 1 {
+		// SetRTO while the transaction is in flight must not change its schedule
+		other := vxLen(1 << 40)
+		vxAssume(other > 0)
+		env.c.SetRTO(time.Duration(other))
+		vxReach("setrto-in-flight")
+	}
 	at, ok := env.c.a.(*Agent).transactions[id]
 	vxAssert(ok, "the agent tracks the transaction")
 	// a timeout event for this transaction at virtual time now2 (strictly after its deadline)
